@@ -854,6 +854,9 @@ func handleMessage(peer *Peer, m protocol.Message) error {
 		if peer.Info == nil || peer.amUnchoking == 0 {
 			return reject(peer, m.Index, m.Begin, m.Length)
 		}
+		if m.Length > 1<<17 {
+			return reject(peer, m.Index, m.Begin, m.Length)
+		}
 		if len(peer.requested) >= reqQ {
 			// head drop
 			r := peer.requested[0]
